@@ -569,11 +569,6 @@ func replay(t *testing.T, job *Job, scs []*Scenario) {
 			break
 		}
 		s := r.s
-		out.Viol = s.Viol
-		out.Known = s.Known
-		out.TraceHash = s.TraceHash()
-		out.Labels = s.Labels
-		out.Trace = s.trace()
 		tagOK := false
 		if s.Viol != nil && (job.WantTag == "" || s.Viol.Tag == job.WantTag) {
 			tagOK = true
@@ -583,10 +578,19 @@ func replay(t *testing.T, job *Job, scs []*Scenario) {
 				tagOK = true
 			}
 		}
-		out.HashMatch = job.WantHash == "" || job.WantHash == out.TraceHash
+		hashOK := job.WantHash == "" || job.WantHash == s.TraceHash()
+		if out.Reproduced && !tagOK {
+			continue // keep the attempt that reproduced the violation
+		}
+		out.Viol = s.Viol
+		out.Known = s.Known
+		out.TraceHash = s.TraceHash()
+		out.Labels = s.Labels
+		out.Trace = s.trace()
+		out.HashMatch = hashOK
 		if tagOK {
 			out.Reproduced = true
-			if out.HashMatch {
+			if hashOK {
 				break
 			}
 		}
